@@ -58,6 +58,9 @@ CheckHow(e) ==
      \* present is still of its declared type and declared (request bodies and server results only)
      ELSE IF "D_ts_zero_fields_required" \in Dev /\ e.what \in {"request", "result"} /\ cOK(TRUE) /\ wOK(TRUE) THEN "D_ts_zero_fields_required"
      ELSE IF PathVarNotString(e) THEN "D_ts_server_path_params_raw_strings"
+     ELSE IF "D_ts_root_unwrap_only_results" \in Dev /\ e.hasVal /\ HasMsg(schema, e.val.type)
+             /\ \E n \in Reach(schema, {e.val.type}, {}) : IsRootUnwrap(MsgByName(schema, n)) /\ (n # e.val.type \/ e.what = "request")
+          THEN "D_ts_root_unwrap_only_results"
      ELSE IF "D_ts_wkt_as_objects" \in Dev /\ e.hasVal /\ WktScalarReachable(schema, e.val.type) THEN "D_ts_wkt_as_objects"
      ELSE IF "D_ts_nested_flatten" \in Dev /\ e.hasVal /\ NestedFlatten(schema, e.val.type) THEN "D_ts_nested_flatten"
      ELSE IF g # "" /\ (wOK(TRUE) \/ cOK(TRUE)) THEN g
